@@ -90,6 +90,18 @@ func Progress(i int) {
 	_, _ = progressFile.WriteAt(b[:], 0)
 }
 
+var batchDeadline time.Time
+
+// Stop reports whether the current batch's internal deadline has passed; a harness loop that sees it sets
+// Result.Capped and breaks.
+func Stop() bool { return Over(batchDeadline) }
+
+// BatchDeadline is the current batch's internal deadline (for explorers that take one).
+func BatchDeadline() time.Time { return batchDeadline }
+
+// Over reports whether an internal deadline has passed (zero = none).
+func Over(deadline time.Time) bool { return !deadline.IsZero() && time.Now().After(deadline) }
+
 func readProgress(path string) int {
 	b, err := os.ReadFile(path)
 	if err != nil || len(b) < 8 {
@@ -121,7 +133,22 @@ func Main(h Harness) {
 				return Result{}
 			}
 			Progress(-1)
-			return h.Run(args.Tier, t.Batch, t.From, deadline)
+			// Internal deadlines end an enumeration early and quietly (Capped -> exhaustive:false): the budget of the
+			// whole check, and per batch a slice well below the hang watchdog so that a slow batch is never mistaken for
+			// a hang. Harnesses test Over(deadline) between cases.
+			if !deadline.IsZero() && time.Now().After(deadline) {
+				return Result{Capped: true}
+			}
+			dl := deadline
+			timeout := h.TaskTimeout
+			if timeout == 0 {
+				timeout = 120 * time.Second
+			}
+			if sl := time.Now().Add(timeout * 2 / 5); dl.IsZero() || sl.Before(dl) {
+				dl = sl
+			}
+			batchDeadline = dl
+			return h.Run(args.Tier, t.Batch, t.From, dl)
 		})
 		return
 	}
@@ -344,17 +371,25 @@ func crashSite(stderr string) string {
 			if !strings.Contains(stderr, "stack exceeds") {
 				return lib.PanicSite(strings.Join(rest, "\n"))
 			}
-			best := ""
+			// The representative of a recursion cycle: a reference's method if the cycle passes through one (unbounded
+			// recursion over a reference cycle is one cause, whatever containers lie in between), else the smallest name.
+			best, ref := "", ""
 			n := 0
 			for j := 0; j+1 < len(rest) && n < 60; j += 2 {
 				n++
 				fn := lib.PanicSite(rest[j])
-				if strings.Count(fn, "(") != strings.Count(fn, ")") || strings.HasSuffix(fn, "*") || strings.HasSuffix(fn, ".") {
-					continue // a line cut by the stderr buffer
+				if !strings.HasSuffix(strings.TrimSpace(rest[j]), ")") || strings.Count(fn, "(") != strings.Count(fn, ")") || strings.HasSuffix(fn, "*") || strings.HasSuffix(fn, ".") {
+					continue // a line cut by the stderr buffer (a whole frame line ends with its argument list)
 				}
 				if fn != "?" && (best == "" || fn < best) {
 					best = fn
 				}
+				if strings.Contains(fn, "(*RefSchema).") && (ref == "" || fn < ref) {
+					ref = fn
+				}
+			}
+			if ref != "" {
+				best = ref
 			}
 			return "a cycle through " + best
 		}
